@@ -46,6 +46,7 @@ def write(pid, tier, seed, results, known_hits, unknown, vac, wall, mod, cpath):
         "code_under_test": cpath,
         "known_findings_hit": {fid: cnt for fid, (f, cnt) in known_hits.items()},
         "vacuity_failures": vac,
+        "anchor_lines_hit": getattr(mod, "ANCHOR_REPORT", {}),
         "unlisted_violation_signatures": [list(map(str, k)) for k in list(unknown.keys())[:20]],
     }
     ev = {
